@@ -203,6 +203,11 @@ pub fn full_range_only(spacing: u16) -> bool {
     spacing >= 32768
 }
 
+thread_local! {
+    /// twin runs (C13): force the tick-array encoding without disturbing the PRNG stream
+    pub static FORCE_ARRAY_KIND: std::cell::Cell<Option<u8>> = const { std::cell::Cell::new(None) };
+}
+
 pub fn make_knobs(profile: Profile, rng: &mut Rng, thorough: bool) -> Knobs {
     let pct = |rng: &mut Rng, enabled_num: u64, lo: u64, hi: u64| -> u64 {
         if rng.chance(enabled_num, 10) {
@@ -238,6 +243,9 @@ pub fn make_knobs(profile: Profile, rng: &mut Rng, thorough: bool) -> Knobs {
         slots_per_epoch: 432_000,
         spacing_choices: vec![1, 8, 64, 128, 32768],
     };
+    if let Some(kd) = FORCE_ARRAY_KIND.with(|c| c.get()) {
+        k.array_kind = kd;
+    }
     match profile {
         Profile::Rewards | Profile::Adaptive => {
             k.clock_stall_pct = pct(rng, 5, 2, 10);
@@ -760,13 +768,17 @@ pub fn liq_accounts(actor: &Actor, pool: &PoolKeys, pk: &PositionKeys, p: &decod
 }
 
 pub fn init_array_ix(knobs: &Knobs, rng: &mut Rng, whirlpool: &Pubkey, funder: &Pubkey, start: i32) -> Ix {
+    // always draw both coins so that runs differing only in array_kind consume the same stream
+    let coin = rng.chance(1, 2);
+    let idem_coin = rng.chance(1, 2);
+    let twin = FORCE_ARRAY_KIND.with(|c| c.get()).is_some();
     let dynamic = match knobs.array_kind {
         0 => false,
         1 => true,
-        _ => rng.chance(1, 2),
+        _ => coin,
     };
     if dynamic {
-        ix::initialize_dynamic_tick_array(whirlpool, funder, start, rng.chance(1, 2))
+        ix::initialize_dynamic_tick_array(whirlpool, funder, start, idem_coin && !twin)
     } else {
         ix::initialize_tick_array(whirlpool, funder, start)
     }
